@@ -63,7 +63,7 @@ def canon_defs(b, objects):
     out = []
     for d in objects:
         i = idx.get(d["id"], -1)
-        out.append(dict(id=i, typename=d["typename"],
+        out.append(dict(id=i, typename=d["typename"], pymod=d.get("module"), pytype=d.get("type"),
                         fields=[[list(k.encode()), cv(v)] for k, v in d["fields"].items()],
                         pre=[idx.get(p, -1) for p in d.get("pre-tasks", [])],
                         init=[idx.get(p, -1) for p in d.get("init-tasks", [])],
@@ -112,7 +112,7 @@ def export_reloaded(b, objects, loaded):
         o = loaded[d["id"]]
         i = idx.get(d["id"], -1)
         x = o.__xpm__
-        node = dict(pycls=type(o).__xpmtype__.basetype.__qualname__,
+        node = dict(pycls=type(o).__xpmtype__.basetype.__qualname__, pymod=type(o).__xpmtype__.basetype.__module__,
                     fields=[[list(k.encode()), ev(v)] for k, v in x.values.items()],
                     meta=x._meta, task=None if x.task is None else rid.get(id(x.task), -1),
                     pre=[rid.get(id(p), -1) for p in x.pre_tasks], init=[rid.get(id(p), -1) for p in x.init_tasks],
@@ -210,6 +210,19 @@ def run_case(case, wd):
     res["id_save_load"] = r3.__xpm__.full_identifier.all.hex()
     res["raw_save_load"] = r3.__xpm__.raw_identifier.all.hex()
     res["defs_save"] = canon_defs(b, json.load(open(d / "definition.json"))["objects"])
+    # path 4: the parameter file of a job (outputjson): definitions and tags
+    try:
+        import io
+        ctx = SerializationContext()
+        ctx.workspace = experiment.CURRENT.workspace
+        buf = io.StringIO()
+        root.__xpm__.outputjson(buf, ctx)
+        params = json.loads(buf.getvalue())
+        res["defs_params"] = canon_defs(b, params["objects"])
+        res["params_tags"] = params["tags"]
+        res["tags"] = json.loads(json.dumps(root.tags()))
+    except Exception as e:  # noqa
+        res["params_error"] = type(e).__name__ + ":" + str(e)[:200]
     try:
         res["instance"] = instance_view(objects, None, b)
     except Exception as e:  # noqa
